@@ -266,8 +266,9 @@ def precision_part(chk, exprs):
                         chk.count("large_files_checked_by_the_byte_oracle_only")
                         continue
                     exprs.append((dict(case, file=os.path.basename(f)), lines_new,
-                                  "sx_list sx_line (rewrite (fun k => existsb (Nat.eqb k) %s) %s)" % (
-                                      coq_list([coq_nat(k) for k in ksel]), dh.coq_file(lines_old))))
+                                  "let F := %s in L [sx_list sx_line (rewrite (fun k => existsb (Nat.eqb k) %s) F); "
+                                  "sx_bool (wffb F); sx_bool (no_skipsb ls_init F); sx_bool (crashed (load F))]" % (
+                                      dh.coq_file(lines_old), coq_list([coq_nat(k) for k in ksel]))))
                 leftovers = [x for x in os.listdir(d) if os.path.join(d, x) not in allfiles]
                 if leftovers:
                     chk.violation("C14 the rewrite leaves no temporary file behind", case, [], leftovers)
@@ -625,8 +626,11 @@ def run(chk):
         res = None
     if res is not None:
         nd = 0
+        in_domain = 0
         for (case, lines_new, _), m in zip(exprs, res):
-            ml = [dh.line_of_sx(x) for x in m]
+            # the guards of C14_rewrite_then_load evaluated on the real (classified) file
+            in_domain += 1 if (m[1] == 1 and m[2] == 1 and m[3] == 0) else 0
+            ml = [dh.line_of_sx(x) for x in m[0]]
             if ml != lines_new:
                 nd += 1
                 if nd <= 3:
@@ -636,6 +640,8 @@ def run(chk):
                                               json.dumps(case, default=str)[:700], k, lines_new[k:k + 2], ml[k:k + 2], len(lines_new), len(ml)))
         chk.coverage["traces_validated_against_impl"] = len(res)
         chk.count("disagreements", nd)
+        chk.count("files_inside_the_guards_of_C14_rewrite_then_load", in_domain)
+        chk.count("files_outside_(torn_leftovers)", len(res) - in_domain)
     chk.coverage["rule"] = ("files of 2 recording sessions (one interrupted; every third scenario with torn leftovers) holding 2-8 runs of 1-2 "
                             "experiments in 1-2 files, tags; selections = experiment or all x 12 filter sets; distinct = (scenario, selection)")
     chk.assumptions += ["a kill is modelled by the content on disk at the moment of each file-system call / each line filtered; a sample of real "
